@@ -454,7 +454,21 @@ func (g *gen) program(p profile) []Op {
 		}
 		x -= p.wSnapRead
 		if x < p.wTx {
-			ops = append(ops, g.txOp())
+			tx := g.txOp()
+			if r.p(0.35) {
+				// an iterator of the transaction outlives Commit/Discard
+				for _, b := range tx.Body {
+					if b.K == "iter" && b.Keep {
+						slot := 4 + r.intn(2)
+						if !liveIters[slot] {
+							tx.Outlive = slot
+							liveIters[slot] = true
+						}
+						break
+					}
+				}
+			}
+			ops = append(ops, tx)
 			continue
 		}
 		x -= p.wTx
@@ -490,7 +504,10 @@ func (g *gen) program(p profile) []Op {
 		}
 		x -= p.wSettle
 		if x < p.wKeepIter {
-			slot := r.intn(4)
+			slot := r.intn(6)
+			if slot >= 4 && !liveIters[slot] {
+				slot -= 4 // slots 4 and 5 only ever hold iterators that outlived a transaction
+			}
 			switch {
 			case !liveIters[slot]:
 				op := g.iterOp("", slot, 6)
@@ -657,7 +674,7 @@ func GenCase(prop string, seed uint64, thorough bool) *Case {
 	if prop == "C07" && len(c.Clients) == 1 && r.p(0.15) {
 		// space is given back: K rounds of overwrite-everything + full compaction
 		ops := c.Clients[0]
-		for i := 0; i < 4; i++ {
+		for i := 0; i < 6; i++ {
 			ops = append(ops, Op{K: "iterrel", Slot: i})
 		}
 		for i := 0; i < 8; i++ {
